@@ -56,7 +56,7 @@ def small_project(rnd, nfiles=3, stmts=(1, 4), structured=False, use_cache=None,
             f["target"] = rnd.choice(["none", "plain"])
             f["msg"] = rnd.choice(["plain", "unicode", "placeholder"])
             f["pre"] = "indent"
-            if rnd.random() < 0.2:
+            if k > 0 and rnd.random() < 0.2:         # the first statement of every file lacks a reference: every file has work
                 f["ref"] = "valid"
             kv_ref = None
             if structured and f["ref"] == "valid":
